@@ -46,9 +46,72 @@ func stateOps(root []*ssa.Function, a *svcAnchors) (ops []stateOp, nonAtomic []c
 			nonAtomic = append(nonAtomic, ac)
 			continue
 		}
+		// a transition helper (`switchState(from, to)`): the constants are the arguments at its
+		// call sites, and each call site stands for the transition in its caller (for a CAS the
+		// helper must hand the swap's result back as its own)
+		if lifted := liftStateOp(root, op, args); lifted != nil {
+			ops = append(ops, lifted...)
+			continue
+		}
 		ops = append(ops, op)
 	}
 	return
+}
+
+func liftStateOp(root []*ssa.Function, op stateOp, args []ssa.Value) []stateOp {
+	if op.Op != "store" && op.Op != "cas" {
+		return nil
+	}
+	fn := op.Fn
+	prmIdx := func(v ssa.Value) int {
+		for i, q := range fn.Params {
+			if ssa.Value(q) == v {
+				return i
+			}
+		}
+		return -1
+	}
+	newIdx, oldIdx := prmIdx(args[len(args)-1]), -1
+	if op.Op == "cas" {
+		oldIdx = prmIdx(args[len(args)-2])
+	}
+	if newIdx < 0 && oldIdx < 0 {
+		return nil
+	}
+	if fn.Parent() != nil {
+		return nil
+	}
+	if op.Op == "cas" {
+		ci, _ := op.Instr.(*ssa.Call)
+		n := 0
+		for _, ret := range core.Returns(fn) {
+			n++
+			if ci == nil || len(ret.Results) != 1 || ret.Results[0] != ssa.Value(ci) {
+				return nil
+			}
+		}
+		if n != 1 {
+			return nil
+		}
+	}
+	var out []stateOp
+	for _, c := range callsTo(root, fn) {
+		o := stateOp{Fn: c.Parent(), Instr: c, Op: op.Op, Old: op.Old, New: op.New}
+		ok := true
+		if newIdx >= 0 {
+			k, isC := core.ConstInt(c.Common().Args[newIdx])
+			o.New, ok = k, ok && isC
+		}
+		if oldIdx >= 0 {
+			k, isC := core.ConstInt(c.Common().Args[oldIdx])
+			o.Old, ok = k, ok && isC
+		}
+		if !ok {
+			return nil
+		}
+		out = append(out, o)
+	}
+	return out
 }
 
 // startedEdge: does the edge establish state == started (given the constant)?
@@ -300,11 +363,9 @@ func c03(r *core.Run) {
 				closeCall = c
 				closeEnd = c
 			}
-			if cal := c.Common().StaticCallee(); cal != nil && cal.String() == "(*sync.WaitGroup).Wait" {
-				if f, ok := core.FieldOf(c.Common().Args[0]); ok && f == a.WG && !core.IsGo(c) && !core.IsDefer(c) {
-					wait = c
-				}
-			}
+		}
+		if ws := workerWaitSites(p, fn, a); len(ws) > 0 {
+			wait = ws[len(ws)-1]
 		}
 		onSuccess := false
 		if closeCall != nil && cas != nil {
@@ -319,9 +380,21 @@ func c03(r *core.Run) {
 		r.Check(closeCall != nil && closeEnd != nil && wait != nil && core.Dominates(closeEnd, wait), "S2", fname, "closeFn-dom-wg.Wait", posOf(p, wait), "workers are awaited (synchronously, unconditionally) after the close protocol", "Shutdown does not synchronously wait for the workers after closing (no plain WaitGroup.Wait on the worker group dominated by closeFn)")
 		r.Check(wait != nil && storeStopped != nil && core.Dominates(wait, storeStopped), "S2", fname, "wg.Wait-dom-Store(stopped)", posOf(p, storeStopped), "the service is declared stopped only after every worker has exited", "Store(stopped) is not dominated by a synchronous WaitGroup.Wait: a restart could overlap workers of the previous run")
 		// per-run fields cleared after the wait
-		for _, ac := range core.FieldAccesses([]*ssa.Function{fn}, func(f core.Field) bool { return f == a.NC || f == a.InCh || f == a.RWork || f == a.WorkQueue }) {
+		unit := []*ssa.Function{fn}
+		for _, h := range p.Helpers(fn) {
+			if h != fn && h != a.Close && !p.Within(h, a.Close) {
+				unit = append(unit, h)
+			}
+		}
+		for _, ac := range core.FieldAccesses(unit, func(f core.Field) bool { return f == a.NC || f == a.InCh || f == a.RWork || f == a.WorkQueue }) {
 			if ac.Kind == "store" && ac.Instr != closeCall {
-				r.Check(wait != nil && core.Dominates(wait, ac.Instr), "S2", fname, "clear("+a.label(ac.F)+")-after-wg.Wait", p.InstrPos(ac.Instr), "per-run field cleared only after the workers are gone", "per-run field cleared while workers may still run")
+				after := wait != nil
+				for _, site := range p.Lift(ac.Instr, fn) {
+					if wait == nil || !core.Dominates(wait, site) {
+						after = false
+					}
+				}
+				r.Check(after, "S2", fname, "clear("+a.label(ac.F)+")-after-wg.Wait", p.InstrPos(ac.Instr), "per-run field cleared only after the workers are gone", "per-run field cleared while workers may still run")
 			}
 		}
 		// every return on the success path is dominated by Store(stopped)
@@ -348,10 +421,16 @@ func c03(r *core.Run) {
 			}
 		}
 		subFn := subscribeFn(p)
-		for _, c := range core.Calls(fn) {
+		for _, c := range helperCalls(p, fn) {
 			if cal := c.Common().StaticCallee(); cal != nil && (cal == subFn || (subFn == nil && cal.Name() == "subscribe")) {
-				subscribe = c
+				if l := p.Lift(c, fn); len(l) > 0 {
+					subscribe = l[0]
+				}
 			}
+		}
+		isWait := map[ssa.Instruction]bool{}
+		for _, ws := range workerWaitSites(p, fn, a) {
+			isWait[ws] = true
 		}
 		startSites := workerStartSites(p, fn, a)
 		if len(startSites) > 0 {
@@ -411,9 +490,10 @@ func c03(r *core.Run) {
 					if isStart[in] {
 						return core.StateSet(0).Add(1)
 					}
-					if cal := c.Common().StaticCallee(); cal != nil && cal.String() == "(*sync.WaitGroup).Wait" && !core.IsGo(c) && !core.IsDefer(c) {
+					if isWait[in] {
 						return core.StateSet(0).Add(0)
 					}
+					_ = c
 				}
 				return core.StateSet(0).Add(st)
 			}
@@ -652,7 +732,7 @@ func c03(r *core.Run) {
 			r.OK("N1", core.FuncName(ac.Fn), "store("+a.label(ac.F)+"):init", p.InstrPos(ac.Instr), "written during initialisation, before any other goroutine of this run exists")
 			continue
 		}
-		r.Bad("N1", core.FuncName(ac.Fn), "store("+a.label(ac.F)+")", p.InstrPos(ac.Instr), "a per-run connection field is written outside serve's initialisation with no lock: publishing entry points (Reset, TokenEvent, event, reply) and Serve's own subscribe, which passed the started-check, read it concurrently -> nil-pointer panic / data race")
+		r.Bad("N1", ownerName(p, ac.Fn), "store("+a.label(ac.F)+")", p.InstrPos(ac.Instr), "a per-run connection field is written outside serve's initialisation with no lock: publishing entry points (Reset, TokenEvent, event, reply) and Serve's own subscribe, which passed the started-check, read it concurrently -> nil-pointer panic / data race")
 	}
 }
 
@@ -729,6 +809,35 @@ func beforeWorkers(p *core.Prog, a *svcAnchors, in ssa.Instruction, firstGo ssa.
 		}
 	}
 	return true
+}
+
+// workerWaitSites: the instructions of fn that wait for the workers - a plain
+// WaitGroup.Wait on the worker group, or the plain call of a private helper that
+// performs one on every path (awaitWorkers()).
+func workerWaitSites(p *core.Prog, fn *ssa.Function, a *svcAnchors) []ssa.Instruction {
+	var out []ssa.Instruction
+	seen := map[ssa.Instruction]bool{}
+	for _, h := range p.Helpers(fn) {
+		for _, c := range core.Calls(h) {
+			cal := c.Common().StaticCallee()
+			if cal == nil || cal.String() != "(*sync.WaitGroup).Wait" || core.IsGo(c) || core.IsDefer(c) {
+				continue
+			}
+			if f, ok := core.FieldOf(c.Common().Args[0]); !ok || f != a.WG {
+				continue
+			}
+			if h != fn && !unconditionalIn(c) {
+				continue
+			}
+			for _, site := range p.Lift(c, fn) {
+				if !seen[site] {
+					seen[site] = true
+					out = append(out, site)
+				}
+			}
+		}
+	}
+	return out
 }
 
 // firstWorkerStart: the first instruction of serve that starts a worker; what
